@@ -30,6 +30,7 @@ import E2P.Generated.Grammar
 import E2P.Model.Quote
 import E2P.Model.Refs
 import E2P.Model.Safety
+import E2P.Model.Ops
 import E2P.Generated.RuntimeConsts
 open E2P
 
@@ -597,6 +598,115 @@ def handleSafetyKey (args : List String) : String :=
     | _, _, _ => "bad-op"
   | _ => "bad-op"
 
+/-! operators: `op <n> res₀ … res_{n-1} tok…` with tokens a<i> ( ) % + - * / & = <> < <= > >= -/
+def parseTk (t : String) : Option Tk :=
+  match t with
+  | "(" => some .lp | ")" => some .rp | "%" => some .pct
+  | "+" => some (.op .add) | "-" => some (.op .sub) | "*" => some (.op .mul) | "/" => some (.op .div) | "&" => some (.op .cat)
+  | "=" => some (.op (.cmp .eq)) | "<>" => some (.op (.cmp .ne)) | "<" => some (.op (.cmp .lt)) | "<=" => some (.op (.cmp .le))
+  | ">" => some (.op (.cmp .gt)) | ">=" => some (.op (.cmp .ge))
+  | _ => if t.startsWith "a" then (t.drop 1).toString.toNat?.map .atom else none
+
+/-- independent reading of the same token sequence: recursive descent over the stratified grammar
+    cmp := cat (cmpop cat)* ; cat := add (& add)* ; add := mul ((+|-) mul)* ; mul := un ((*|/) un)* ; un := (+|-)* post ; post := (atom | '(' cmp ')') %*
+    evaluated directly on values (no tree), one function per level -/
+structure SV where
+  v : Res
+  pct : Bool
+
+def applyBin (o : BinOp) (l r : SV) : SV :=
+  let v : Res := do
+    let x ← l.v
+    let y ← r.v
+    let z ← evalBin o x y
+    match o with
+    | .add | .sub | .mul | .div => if l.pct then pure (normVal z) else pure z
+    | _ => pure z
+  ⟨v, false⟩
+
+mutual
+  partial def sCmp (env : Nat → Res) (ts : List Tk) : Option (SV × List Tk) := do
+    let (l, r) ← sCat env ts
+    sCmpTail env l r
+  partial def sCmpTail (env : Nat → Res) (l : SV) (ts : List Tk) : Option (SV × List Tk) :=
+    match ts with
+    | .op (.cmp c) :: r => do let (x, r') ← sCat env r; sCmpTail env (applyBin (.cmp c) l x) r'
+    | _ => some (l, ts)
+  partial def sCat (env : Nat → Res) (ts : List Tk) : Option (SV × List Tk) := do
+    let (l, r) ← sAdd env ts
+    sCatTail env l r
+  partial def sCatTail (env : Nat → Res) (l : SV) (ts : List Tk) : Option (SV × List Tk) :=
+    match ts with
+    | .op .cat :: r => do let (x, r') ← sAdd env r; sCatTail env (applyBin .cat l x) r'
+    | _ => some (l, ts)
+  partial def sAdd (env : Nat → Res) (ts : List Tk) : Option (SV × List Tk) := do
+    let (l, r) ← sMul env ts
+    sAddTail env l r
+  partial def sAddTail (env : Nat → Res) (l : SV) (ts : List Tk) : Option (SV × List Tk) :=
+    match ts with
+    | .op .add :: r => do let (x, r') ← sMul env r; sAddTail env (applyBin .add l x) r'
+    | .op .sub :: r => do let (x, r') ← sMul env r; sAddTail env (applyBin .sub l x) r'
+    | _ => some (l, ts)
+  partial def sMul (env : Nat → Res) (ts : List Tk) : Option (SV × List Tk) := do
+    let (l, r) ← sUn env ts
+    sMulTail env l r
+  partial def sMulTail (env : Nat → Res) (l : SV) (ts : List Tk) : Option (SV × List Tk) :=
+    match ts with
+    | .op .mul :: r => do let (x, r') ← sUn env r; sMulTail env (applyBin .mul l x) r'
+    | .op .div :: r => do let (x, r') ← sUn env r; sMulTail env (applyBin .div l x) r'
+    | _ => some (l, ts)
+  partial def sUn (env : Nat → Res) (ts : List Tk) : Option (SV × List Tk) :=
+    match ts with
+    | .op .sub :: r => do let (x, r') ← sUn env r; some (⟨x.v >>= pyNeg, false⟩, r')
+    | .op .add :: r => do let (x, r') ← sUn env r; some (⟨x.v >>= pyPos, false⟩, r')
+    | _ => sPost env ts
+  partial def sPost (env : Nat → Res) (ts : List Tk) : Option (SV × List Tk) :=
+    match ts with
+    | .atom a :: r => sPct ⟨env a, false⟩ r
+    | .lp :: r => do
+      let (x, r') ← sCmp env r
+      match r' with
+      | .rp :: r'' => sPct ⟨x.v, false⟩ r''
+      | _ => none
+    | _ => none
+  partial def sPct (x : SV) (ts : List Tk) : Option (SV × List Tk) :=
+    match ts with
+    | .pct :: r => sPct ⟨x.v >>= pctVal, true⟩ r
+    | _ => some (x, ts)
+end
+
+def encResU : Res → String
+  | .error .unmodelled => "EUnmodelled"
+  | r => encRes r
+
+def handleOps (args : List String) : String :=
+  match args with
+  | n :: rest =>
+    match n.toNat? with
+    | none => "bad-op"
+    | some n =>
+      let rec cells : Nat → List String → Option (List Res × List String)
+        | 0, r => some ([], r)
+        | k + 1, r => do
+          let (x, r) ← decRes r
+          let (xs, r) ← cells k r
+          some (x :: xs, r)
+      match cells n rest with
+      | none => "bad-op"
+      | some (cs, r) =>
+        match r.mapM parseTk with
+        | none => "bad-op"
+        | some toks =>
+          let env : Nat → Res := fun i => cs.getD i (.ok .blank)
+          let model := match groupTokens toks with
+            | some e => encResU (evalEx env e)
+            | none => "REJECT"
+          let spec := match sCmp env toks with
+            | some (v, []) => (match v.v with | .error .unmodelled => "-" | r => encRes r)
+            | _ => "REJECT"
+          s!"{model} | {spec} | "
+  | _ => "bad-op"
+
 def handle (line : String) : String :=
   match tokens line with
   | "echo" :: rest =>
@@ -618,6 +728,7 @@ def handle (line : String) : String :=
   | "qt" :: rest => handleQuote rest
   | "rf" :: rest => handleRefs rest
   | "sf" :: rest => handleSafety rest
+  | "op" :: rest => handleOps rest
   | "sk" :: rest => handleSafetyKey rest
   | _ => "bad-op"
 
